@@ -50,9 +50,29 @@ Def(e, x) ==
 KnownFn == {"reduceOnce", "neg", "power2round", "decompose", "highBits", "lowBits", "useHint", "makeHint",
             "centeredAbs", "scalePower2", "addc", "subc", "csub", "mulc"}
 
+\* The same comparison with the dispatch on the function name outside the quantifier (what TLC evaluates
+\* on the 8.4 million points of a complete table); Def/Logged above are used to locate a disagreement.
+V(e, k, x) == (e.v[k] + e.s[k] * (x - e.lo)) % Q
+RunAgrees(e) ==
+  LET xs == e.lo .. e.lo + e.n - 1 IN
+  CASE e.fn = "reduceOnce"  -> \A x \in xs : x % Q = V(e, 1, x)
+    [] e.fn = "neg"         -> \A x \in xs : NegQ(x) = V(e, 1, x)
+    [] e.fn = "power2round" -> \A x \in xs : LET p == Power2Round(x) IN p[1] = V(e, 1, x) /\ p[2] % Q = V(e, 2, x)
+    [] e.fn = "decompose"   -> \A x \in xs : LET p == Decompose(x, e.g) IN p[1] = V(e, 1, x) /\ p[2] % Q = V(e, 2, x)
+    [] e.fn = "highBits"    -> \A x \in xs : HighBits(x, e.g) = V(e, 1, x)
+    [] e.fn = "lowBits"     -> \A x \in xs : LowBits(x, e.g) % Q = V(e, 1, x)
+    [] e.fn = "useHint"     -> \A x \in xs : UseHint(e.p, x, e.g) = V(e, 1, x)
+    [] e.fn = "makeHint"    -> \A x \in xs : MakeHint(e.p, x, e.g) = V(e, 1, x)
+    [] e.fn = "centeredAbs" -> \A x \in xs : NormQ(x) = V(e, 1, x)
+    [] e.fn = "scalePower2" -> \A x \in xs : x * (2 ^ D) = V(e, 1, x)
+    [] e.fn = "addc"        -> \A x \in xs : AddQ(x, e.p) = V(e, 1, x)
+    [] e.fn = "subc"        -> \A x \in xs : SubQ(x, e.p) = V(e, 1, x)
+    [] e.fn = "csub"        -> \A x \in xs : SubQ(e.p, x) = V(e, 1, x)
+    [] e.fn = "mulc"        -> \A x \in xs : MulQ(x, e.p) = (e.v[1] + MulQ(e.p, x - e.lo)) % Q
+
 JudgeRun(e) ==
   IF e.fn \notin KnownFn THEN <<"unknown function", e.fn>>
-  ELSE IF \A x \in e.lo .. e.lo + e.n - 1 : Def(e, x) = Logged(e, x) THEN <<>>
+  ELSE IF RunAgrees(e) THEN <<>>
   ELSE LET x == CHOOSE y \in e.lo .. e.lo + e.n - 1 :
                    /\ Def(e, y) # Logged(e, y)
                    /\ \A w \in e.lo .. y - 1 : Def(e, w) = Logged(e, w)
